@@ -35,10 +35,14 @@ impl<'a, 'src> ExpressionParser<'a, 'src>
         walker: &'a mut syntax::Walker<'src>)
         -> ExpressionParser<'a, 'src>
 	{
+		// Expressions inside an `asm` block continue the
+		// nesting depth of the expression around the block
+		let recursion_depth = walker.expr_nesting_depth;
+
 		ExpressionParser {
             report,
 			walker,
-			recursion_depth: 0,
+			recursion_depth,
 		}
 	}
 
@@ -631,6 +635,7 @@ impl<'a, 'src> ExpressionParser<'a, 'src>
 		}
 
 		inner_walker.block_nesting_depth += 1;
+		inner_walker.expr_nesting_depth = self.recursion_depth;
 
 		let ast = asm::parser::parse_nested_toplevel(
 			self.report,
